@@ -1,20 +1,26 @@
-"""Helpers of C12 (iv_work): role-based calling contexts, local normalisations and the small
-abstract domains the C12 rules are formulated in.
+"""Helpers of C12 (iv_work): role-based calling contexts, role inference for the private data, local normalisations and
+the small abstract domains the C12 rules are formulated in.
 
-  * contexts(): the public / handler *roots* that reach a site, with every internal helper of the
-    file inlined (the library API -- functions with external linkage of other files -- stays a call);
-  * normalise(): address values cached in locals (`q = &pool->work_done`) are substituted, emptiness
-    snapshots (`was_empty = iv_list_empty(q)`) become boolean flags and are partitioned away,
-    open-coded iv_list_del is recognised;
+  * contexts(): the public / handler *roots* that reach a site, with every internal helper of the module inlined (the
+    library API -- functions with external linkage of other files -- stays a call).  ModInliner also enters the module's
+    own function pointers: a parameter bound to a named function, a constant table of functions indexed by an enum
+    (behind a switch on the index).  Functions whose address never leaves the module are helpers, not roots;
+  * schema(): which private record / member plays which part (pool record, lock, queues, sequence numbers, thread counter
+    and its direction, events by the role of their installed handler, kicked mark), inferred from what the code does;
+    members are named by their chain of steps inside the object (chain_of), so nesting into sub-structures is irrelevant;
+  * normalise(): `*&v` (out-parameters), context structs used member by member (scalarised), ternary-valued stores
+    (lowered to branches), branches on constants (pruned, dead code removed), address values cached in locals
+    (`q = &pool->work_done`) substituted, emptiness snapshots (`was_empty = iv_list_empty(q)`) and result flags
+    partitioned away, open-coded iv_list_del / add and container_of recognised;
   * worlds(): may-analysis over finite sets of abstract "worlds" (path-sensitive bit vectors);
-  * item_states(): must-alias typestate of work items (taken -> unlinked -> worked -> queued-done / completed),
+  * Items: alias typestate of list-linked objects (taken -> unlinked -> worked -> queued-done / completed),
     keyed by the *definition* of the item, so independent of loop form and of the helper structure.
 """
 import json
 import re
 
-from ..core import (AnalysisBroken, Inliner, canon, strip, strip_load, last_member, walk, subst, simplify, names_of,
-                    forward, norm_cond, lvalue_steps, is_int, partition_flags, PURE_CALLS)
+from ..core import (AnalysisBroken, Inliner, canon, strip, strip_load, last_member, walk, subst, simplify, names_of, field_chain,
+                    forward, norm_cond, lvalue_steps, is_int, partition_flags, PURE_CALLS, Block, fold)
 from ..analyses import is_call, callback_kind, locksets, held, lock_effect, list_empty_test, LOCK_FUNCS
 from .. import roles
 
@@ -56,13 +62,23 @@ def arg_key(e, i):
     return None
 
 
+def base_var(x):
+    """variable v of an access path `v->a.b` / `&v->a.b` (the object the path lives in)"""
+    x = strip(x)
+    if isinstance(x, dict) and x.get('k') == 'addr':
+        x = strip(x['e'])
+    while isinstance(x, dict) and x.get('k') == 'member':
+        if x.get('arrow'):
+            return varname(x['base'])
+        x = strip(x['base'])
+    return None
+
+
 def arg_base(e, i):
-    """variable name v of an argument `&v->field`."""
+    """variable name v of an argument `&v->field` (also `&v->a.field`)."""
     a = strip(e['args'][i]) if len(e.get('args', [])) > i else None
     if isinstance(a, dict) and a.get('k') == 'addr':
-        m = strip(a['e'])
-        if isinstance(m, dict) and m.get('k') == 'member' and m.get('arrow'):
-            return varname(m['base'])
+        return base_var(a)
     return None
 
 
@@ -257,24 +273,53 @@ def _path_value(rhs):
     return rhs
 
 
+def _raw_contexts(prog):
+    """the module roots with helpers inlined, *not* normalised (normalisation itself asks immutable_key)"""
+    cache = prog.__dict__.get('_h12_raw')
+    if cache is None:
+        files = module_files(prog)
+        cache = []
+        for r in module_roots(prog):
+            try:
+                cache.append(_inliner(prog).inline(r))
+            except AnalysisBroken:
+                pass
+        prog.__dict__['_h12_raw'] = cache
+    return cache
+
+
+def _fresh_base(fn, e):
+    """the store event e of fn writes into an object that fn has just allocated (malloc / calloc into the base variable)"""
+    x = strip(e['lhs'])
+    base = None
+    while isinstance(x, dict) and x.get('k') in ('member', 'index'):
+        if x.get('k') == 'member' and x['arrow']:
+            base = varname(x['base'])
+            break
+        x = strip(x['base'])
+    return base is not None and any(
+        s_['ev'] == 'store' and 'rhs' in s_ and varname(s_['lhs']) == base and
+        any(y.get('k') == 'call' and y.get('callee') in ('malloc', 'calloc') for y in walk(s_['rhs']))
+        for s_ in fn.events())
+
+
 def immutable_key(prog, key):
-    """record.field is only ever stored to in objects that the storing function has just allocated (written once before
-    publication), or not at all by the library: a cached copy of it never goes stale."""
+    """record.field is only ever stored to in objects that the storing code has just allocated (written once before
+    publication), or not at all by the library: a cached copy of it never goes stale.  A store made by a helper that gets
+    the object as a parameter is judged in every calling context (root with helpers inlined) that contains it."""
     cache = prog.__dict__.setdefault('_h12_immut', {})
     if key not in cache:
+        cache[key] = True          # (re-entrant queries while the contexts are built: optimistic, re-evaluated below)
         ok = True
+        files = module_files(prog)
         for (fn, e) in prog.writers_of(*key):
-            x = strip(e['lhs'])
-            base = None
-            while isinstance(x, dict) and x.get('k') in ('member', 'index'):
-                if x.get('k') == 'member' and x['arrow']:
-                    base = varname(x['base'])
-                    break
-                x = strip(x['base'])
-            fresh = base is not None and any(
-                s_['ev'] == 'store' and 'rhs' in s_ and varname(s_['lhs']) == base and
-                any(y.get('k') == 'call' and y.get('callee') in ('malloc', 'calloc') for y in walk(s_['rhs']))
-                for s_ in fn.events())
+            if _fresh_base(fn, e):
+                continue
+            fresh = False
+            if fn.file in files and fn.static:
+                copies = [(g, x) for g in _raw_contexts(prog) for x in g.events()
+                          if x['ev'] == 'store' and x.get('loc') == e.get('loc') and last_member(x['lhs']) == last_member(e['lhs'])]
+                fresh = bool(copies) and all(_fresh_base(g, x) for g, x in copies)
             if not fresh:
                 ok = False
                 break
@@ -570,16 +615,257 @@ def fold_container_of(g, prog):
     return n[0]
 
 
+def _map_exprs(g, fn):
+    """apply the expression rewriter fn to every expression of every event and terminator"""
+    for blk in g.blocks.values():
+        for e in blk.events:
+            for key in ('lhs', 'rhs', 'args', 'fnexpr', 'value', 'e'):
+                if key in e and isinstance(e[key], (dict, list)):
+                    e[key] = fn(e[key])
+        if blk.term and blk.term.get('cond') is not None:
+            blk.term = dict(blk.term, cond=fn(blk.term['cond']))
+
+
+def deref_addr(g):
+    """`*&v` is `v`: an out-parameter whose argument `&v` the inliner substituted for the parameter
+    (`*_item = x` in a helper called with `&item`) is the caller's local itself.  The arguments of the `enter`
+    markers (which only document the call that was inlined) are moved aside, so that a local whose address was only
+    ever passed to an inlined helper does not count as address-taken."""
+    n = [0]
+
+    def r(nd):
+        if nd.get('k') == 'deref':
+            b = nd.get('e')
+            while isinstance(b, dict) and b.get('k') in ('load', 'paren') and 'e' in b:
+                b = b['e']
+            if isinstance(b, dict) and b.get('k') == 'addr':
+                n[0] += 1
+                return subst(b['e'], r)
+        return None
+    _map_exprs(g, lambda x: simplify(subst(x, r)))
+    for e in g.events():
+        if e['ev'] == 'enter' and e.get('args'):
+            e['args0'] = e['args']
+            e['args'] = []
+    # the "read" of a parameter that was replaced by an address constant (`&c`) reads nothing
+    drop = 0
+    for blk in g.blocks.values():
+        keep = [e for e in blk.events if not (e['ev'] == 'load' and isinstance(e.get('e'), dict) and e['e'].get('k') == 'addr')]
+        drop += len(blk.events) - len(keep)
+        blk.events = keep
+    if drop:
+        renumber(g)
+    return n[0]
+
+
+def _new_block(g, events, succ, term, noreturn=False):
+    nid = max(g.blocks) + 1
+    g.blocks[nid] = Block(nid, events, succ, term, noreturn)
+    return nid
+
+
+def _cond_value(rhs):
+    """the conditional expression `c ? a : b` that is the value of rhs (behind casts / loads), else None"""
+    r = rhs
+    while isinstance(r, dict) and r.get('k') in ('load', 'cast', 'paren', 'stmtexpr') and 'e' in r:
+        r = r['e']
+    return r if isinstance(r, dict) and r.get('k') == 'cond' and _pure_cond(r['c']) else None
+
+
+def _pure_cond(c):
+    for x in walk(c):
+        if x.get('k') in ('assign', 'incdec', 'stmtexpr', 'other', 'deep', 'va_arg'):
+            return False
+        if x.get('k') == 'call' and x.get('callee') not in PURE_CALLS:
+            return False
+    return True
+
+
+def lower_ternaries(g):
+    """`x = c ? a : b;` (also `return c ? a : b;` of an inlined helper) is `if (c) x = a; else x = b;`: the block is split at
+    the store and branches on c (the operands of c were evaluated just before; c itself is side-effect free), so that the
+    choice is an *edge* like any other branch and a constant-valued choice is a flag.  Purely a CFG refinement."""
+    n = 0
+    again = True
+    while again:
+        again = False
+        for bid in sorted(g.blocks):
+            blk = g.blocks[bid]
+            for i, e in enumerate(blk.events):
+                if e['ev'] != 'store' or e.get('op') != '=' or 'rhs' not in e:
+                    continue
+                c = _cond_value(e['rhs'])
+                if c is None:
+                    continue
+                rest = _new_block(g, blk.events[i + 1:], list(blk.succ), blk.term, blk.noreturn)
+                if hasattr(blk, 'labels'):
+                    pass
+                arms = []
+                for val in (c['a'], c['b']):
+                    e2 = {k: v for k, v in e.items() if k not in ('_b', '_i')}
+                    e2['rhs'] = val
+                    arms.append(_new_block(g, [e2], [rest], None))
+                blk.events = blk.events[:i]
+                blk.succ = arms
+                blk.term = {'cls': 'FlagSplit', 'cond': c['c'], 'loc': e.get('loc', '')}
+                blk.noreturn = False
+                if g.exit == bid:
+                    g.exit = rest
+                n += 1
+                again = True
+                break
+            if again:
+                break
+    if n:
+        # `ret` events that repeat the conditional value are documentation only
+        renumber(g)
+    return n
+
+
+def _quiet_block(blk):
+    return all(e['ev'] == 'load' for e in blk.events) and not blk.noreturn
+
+
+def collapse_empty_diamonds(g):
+    """A two-way branch both of whose arms are empty and meet again decides nothing (what clang leaves of `c ? a : b` once
+    the value is assigned in the arms by lower_ternaries, or of an `if` whose body was compiled out)."""
+    n = 0
+    changed = True
+    while changed:
+        changed = False
+        for bid, blk in g.blocks.items():
+            if len(blk.succ) != 2 or None in blk.succ or not blk.term or blk.term.get('cls') in ('SwitchStmt', 'MethodDispatch'):
+                continue
+            ends = []
+            for s in blk.succ:
+                seen = set()
+                chain = [s]
+                while _quiet_block(g.blocks[s]) and len(g.blocks[s].succ) == 1 and g.blocks[s].succ[0] is not None \
+                        and s not in seen and s != g.exit and not (g.blocks[s].term and g.blocks[s].term.get('cond') is not None):
+                    seen.add(s)
+                    s = g.blocks[s].succ[0]
+                    chain.append(s)
+                ends.append(chain)
+            common = [x for x in ends[0] if x in ends[1]]
+            if not common:
+                continue
+            j = common[0]
+            # every block skipped on either arm must be quiet (chain membership guarantees it except for j itself)
+            blk.succ = [j]
+            blk.term = None
+            n += 1
+            changed = True
+    return n
+
+
+def prune_constant_branches(g):
+    """branches on a constant (a parameter the inliner replaced by the literal argument: `run_work` := 0) take one edge;
+    blocks that are no longer reachable are removed"""
+    n = 0
+    for blk in g.blocks.values():
+        if not blk.term or blk.term.get('cond') is None or len(blk.succ) < 2:
+            continue
+        c = strip(fold(blk.term['cond']))
+        if not (isinstance(c, dict) and c.get('k') in ('int', 'null')):
+            continue
+        v = 0 if c.get('k') == 'null' else c['v']
+        if blk.term.get('cls') == 'SwitchStmt':
+            cases = blk.term.get('cases', [])
+            pick = [s for s, cv in zip(blk.succ, cases) if cv == v] or [s for s, cv in zip(blk.succ, cases) if cv == 'default']
+            if not pick:
+                continue
+            blk.succ = [pick[0]]
+        elif len(blk.succ) == 2:
+            blk.succ = [blk.succ[0] if v else blk.succ[1]]
+        else:
+            continue
+        blk.term = {'cls': 'Pruned', 'loc': blk.term.get('loc', '')}
+        n += 1
+    reach = g.reachable_blocks()
+    dead = [b for b in g.blocks if b not in reach and b != g.exit]
+    for b in dead:
+        del g.blocks[b]
+    if n or dead:
+        renumber(g)
+    return n + len(dead)
+
+
+def scalarise_local_structs(g):
+    """A local struct that is only ever used member by member (`c.pool`, `c.work`; a context record handed to helpers by
+    address, which the inliner has substituted) is a bundle of independent locals: `c.work` becomes the local `c$work`.
+    Locals whose address is really used (`&items` of a list head, whole-struct copies) are left alone."""
+    uses, bad = {}, set()
+
+    def scan(x, parent_ok):
+        if isinstance(x, list):
+            for y in x:
+                scan(y, False)
+            return
+        if not isinstance(x, dict):
+            return
+        k = x.get('k')
+        if k == 'member' and not x.get('arrow'):
+            b = x.get('base')
+            while isinstance(b, dict) and b.get('k') == 'load' and 'e' in b:
+                b = b['e']
+            if isinstance(b, dict) and b.get('k') == 'var' and b.get('vk') == 'local' and b.get('record') and not b.get('ptr'):
+                uses[b['name']] = uses.get(b['name'], 0) + 1
+                return
+        if k == 'var' and x.get('vk') == 'local' and x.get('record') and not x.get('ptr'):
+            bad.add(x['name'])
+            return
+        for key, v in x.items():
+            if isinstance(v, (dict, list)) and key not in ('sizeof',):
+                scan(v, False)
+    for blk in g.blocks.values():
+        for e in blk.events:
+            if e['ev'] in ('enter', 'leave', 'decl'):
+                continue
+            for key in ('lhs', 'rhs', 'args', 'fnexpr', 'value', 'e'):
+                if key in e:
+                    scan(e[key], False)
+        if blk.term and blk.term.get('cond') is not None:
+            scan(blk.term['cond'], False)
+    names = {n for n in uses if n not in bad}
+    if not names:
+        return 0
+    n = [0]
+
+    def r(nd):
+        if nd.get('k') == 'member' and not nd.get('arrow'):
+            b = nd.get('base')
+            while isinstance(b, dict) and b.get('k') == 'load' and 'e' in b:
+                b = b['e']
+            if isinstance(b, dict) and b.get('k') == 'var' and b.get('name') in names and b.get('vk') == 'local':
+                n[0] += 1
+                v = {'k': 'var', 'name': '%s$%s' % (b['name'], nd['field']), 'vk': 'local', 'type': nd.get('type')}
+                if nd.get('trecord'):
+                    v['record'] = nd['trecord']
+                    v['ptr'] = bool(nd.get('tptr'))
+                return v
+        return None
+    _map_exprs(g, lambda x: subst(x, r))
+    return n[0]
+
+
 def normalise(g, prog):
+    deref_addr(g)
+    scalarise_local_structs(g)
     fold_container_of(g, prog)
     fuse_open_coded_del(g)
     fuse_open_coded_add(g)
     renumber(g)
+    lower_ternaries(g)
+    collapse_empty_diamonds(g)
+    prune_constant_branches(g)
     value_propagate(g, prog)
+    deref_addr(g)
+    lower_ternaries(g)
     snapshot_flags(g)
     for _ in range(6):
         if not partition_flags(g):
             break
+    prune_constant_branches(g)
     renumber(g)
     return g
 
@@ -588,18 +874,117 @@ def normalise(g, prog):
 # calling contexts
 # --------------------------------------------------------------------------
 
+def _table_entries(prog, unit, fx):
+    """For a call through `TABLE[i]` / `TABLE[i].member` where TABLE is a static array of the module that is initialised
+    with functions and never written: ([(index, function)], index expression), else None."""
+    fx = strip(fx)
+    member = None
+    if isinstance(fx, dict) and fx.get('k') == 'member' and not fx.get('arrow'):
+        member = fx['field']
+        fx = strip(fx['base'])
+    if not (isinstance(fx, dict) and fx.get('k') == 'index'):
+        return None
+    base = strip(fx['base'])
+    if not (isinstance(base, dict) and base.get('k') == 'var' and base.get('vk') in ('global', 'staticlocal')):
+        return None
+    gl = prog.global_for(unit, base['name'])
+    if not isinstance(gl, dict) or not gl.get('static') or not isinstance(gl.get('init'), dict) or 'elems' not in gl['init']:
+        return None
+    if prog.global_writers(base['name']):
+        return None
+    out = []
+    for i, el in enumerate(gl['init']['elems']):
+        if member is not None:
+            el = (el.get('fields') or {}).get(member) if isinstance(el, dict) else None
+        el = strip(el) if isinstance(el, dict) else el
+        if isinstance(el, dict) and el.get('k') == 'var' and el.get('vk') == 'func':
+            t = prog.resolve(unit, el['name'])
+            if t is None or not t.blocks:
+                return None
+            out.append((i, t))
+        elif isinstance(el, dict) and el.get('k') in ('int', 'null'):
+            continue                      # unset slot: calling it is not a behaviour of the program
+        else:
+            return None
+    return (out, fx['idx']) if out else None
+
+
+class ModInliner(Inliner):
+    """core.Inliner that also enters the module's own function pointers: a parameter that the caller binds to a named
+    function (`drain(items, complete_one)` ... `action(item)`), and a call through a constant table of functions
+    (`next_step[what_next(pool)](thr)`): every entry is inlined behind a switch on the index expression, so that flag
+    partitioning selects the entry like a `switch` statement would.  (Wanted in core.Inliner._targets.)"""
+
+    def __init__(self, prog, **kw):
+        Inliner.__init__(self, prog, **kw)
+        self._rens = []
+
+    def _emit(self, f, ren, chain, active, depth, retvar):
+        self._rens.append(ren)
+        try:
+            return Inliner._emit(self, f, ren, chain, active, depth, retvar)
+        finally:
+            self._rens.pop()
+
+    def _targets(self, caller, e, known_table=None):
+        t = Inliner._targets(self, caller, e, known_table)
+        if t or 'callee' in e or 'fnexpr' not in e:
+            return t
+        ren = self._rens[-1] if self._rens else {}
+        fx = strip(e['fnexpr'])
+        if isinstance(fx, dict) and fx.get('k') == 'var' and fx.get('vk') in ('param', 'local') and isinstance(ren.get(fx['name']), dict):
+            fx = strip(ren[fx['name']])
+        unit = self.prog.unit_of(caller)
+        if isinstance(fx, dict) and fx.get('k') == 'var' and fx.get('vk') == 'func':
+            g = self.prog.resolve(unit, fx['name']) if unit else None
+            if g is not None and g.blocks and not self.stop(g):
+                return [g]
+            return None
+        tab = _table_entries(self.prog, unit, fx) if unit else None
+        if tab and not any(self.stop(g) for _, g in tab[0]):
+            return [g for _, g in tab[0]]
+        return None
+
+    def inline(self, f):
+        g = Inliner.inline(self, f)
+        unit = self.prog.unit_of(f)
+        # table dispatch: the MethodDispatch the base class leaves becomes a switch on the index
+        for blk in g.blocks.values():
+            if not blk.events or blk.events[-1]['ev'] != 'enter' or 'fnexpr' not in blk.events[-1] or len(blk.succ) < 2:
+                continue
+            en = blk.events[-1]
+            tab = _table_entries(self.prog, unit, en['fnexpr'])
+            if not tab:
+                continue
+            left = list(tab[0])
+            cases = []
+            for q in en.get('targets', []):
+                hit = [k for k, (i, t) in enumerate(left) if t.q == q]
+                if not hit:
+                    cases = None
+                    break
+                cases.append(left.pop(hit[0])[0])
+            if cases and len(cases) == len(blk.succ):
+                blk.term = {'cls': 'SwitchStmt', 'cond': tab[1], 'cases': cases, 'loc': en.get('loc', '')}
+        return g
+
+
+def _inliner(prog):
+    files = module_files(prog)
+    return ModInliner(prog, stop=lambda t: not t.static and t.file not in files)
+
+
 def context_of(prog, root):
     """root with every helper inlined that is not library API of another module (a function with external linkage defined
     outside the files of the iv_work code); normalised."""
     cache = prog.__dict__.setdefault('_h12_ctx', {})
     if root.q not in cache:
-        files = module_files(prog)
-        g = Inliner(prog, stop=lambda t: not t.static and t.file not in files).inline(root)
+        g = _inliner(prog).inline(root)
         cache[root.q] = normalise(g, prog)
     return cache[root.q]
 
 
-RECORDS = ('work_pool_priv', 'work_pool_thread', 'iv_work_item', 'iv_work_thr_info')
+RECORDS = ('iv_work_item', 'iv_work_pool')          # the records of the installed header: the module is the code that uses them
 
 
 def module_files(prog):
@@ -615,10 +1000,82 @@ def module_files(prog):
     return cache
 
 
+def _internal_pointers(prog):
+    """Static functions of the module whose address never leaves it: every use of the address is an argument bound to
+    a parameter that a static helper of the module only *calls*, or an entry of a constant dispatch table that is only
+    indexed and called (ModInliner enters both).  They are helpers, not entry points."""
+    cache = prog.__dict__.get('_h12_internal')
+    if cache is not None:
+        return cache
+    files = module_files(prog)
+    funcs = [f for f in prog.all_funcs() if f.file in files and f.blocks]
+    uses = {}            # function q -> [bool internal]
+
+    def only_called(callee, pname):
+        for e in callee.events():
+            if e['ev'] == 'load':
+                continue                       # the read that feeds the call
+            for key, v in e.items():
+                if not isinstance(v, (dict, list)):
+                    continue
+                for x in walk(v):
+                    if x.get('k') == 'var' and x.get('name') == pname and x.get('vk') == 'param':
+                        if not (e['ev'] == 'call' and key == 'fnexpr' and varname(v) == pname):
+                            return False
+        return True
+
+    def table_only_called(unit, gname):
+        for f in funcs:
+            for e in f.events():
+                if e['ev'] == 'load':
+                    continue
+                for key, v in e.items():
+                    if not isinstance(v, (dict, list)):
+                        continue
+                    for x in walk(v):
+                        if x.get('k') == 'var' and x.get('name') == gname and x.get('vk') in ('global', 'staticlocal'):
+                            if not (e['ev'] == 'call' and key == 'fnexpr' and _table_entries(prog, unit, v)):
+                                return False
+        return True
+
+    for f in funcs:
+        unit = prog.unit_of(f)
+        for e in f.events():
+            bound = {}
+            if e['ev'] == 'call' and 'callee' in e:
+                t = prog.resolve(unit, e['callee']) if unit else None
+                if t is not None and t.static and t.file in files and t.blocks:
+                    for i, a in enumerate(e.get('args', [])):
+                        a = strip(a)
+                        if isinstance(a, dict) and a.get('k') == 'var' and a.get('vk') == 'func' and i < len(t.params):
+                            bound[id(a)] = only_called(t, t.params[i]['name'])
+            for x in walk(e):
+                if x.get('k') == 'var' and x.get('vk') == 'func':
+                    g = prog.resolve(unit, x['name']) if unit else None
+                    if g is not None:
+                        uses.setdefault(g.q, []).append(bound.get(id(x), False))
+    for name, gl in prog.globals.items():
+        init = gl.get('init') if isinstance(gl, dict) else None
+        if not isinstance(init, dict):
+            continue
+        unit = gl.get('unit') or (name.split(':')[0] if ':' in name else None)
+        internal = bool(gl.get('static')) and 'elems' in init and not prog.global_writers(gl.get('name', name)) \
+            and table_only_called(unit, gl.get('name', name))
+        for x in walk(init):
+            if x.get('k') == 'var' and x.get('vk') == 'func':
+                g = prog.resolve(unit, x['name']) if unit else None
+                if g is not None:
+                    uses.setdefault(g.q, []).append(internal)
+    cache = {q for q, us in uses.items() if us and all(us)}
+    prog.__dict__['_h12_internal'] = cache
+    return cache
+
+
 def module_roots(prog):
     """roots (exported functions, installed handlers) of the iv_work code"""
     files = module_files(prog)
-    return [r for r in roles.roots(prog) if r.file in files]
+    internal = _internal_pointers(prog)
+    return [r for r in roles.roots(prog) if r.file in files and not (r.static and r.q in internal)]
 
 
 def contexts(prog, site_pred):
@@ -773,7 +1230,7 @@ def _src_of(E):
             return None
         if not m['arrow']:
             if b.get('k') == 'member':
-                return (which, (b.get('record'), b['field']))
+                return (which, chain_of(b))
             if b.get('k') == 'var':
                 return (which, ('var', b['name']))
         elif b.get('k') == 'var':
@@ -964,3 +1421,458 @@ class Items:
     def arg_objects(self, e, i=0):
         a = e['args'][i] if len(e.get('args', [])) > i else None
         return [self.find(S, self.names_for(a)) if a is not None else None for S in self.before(e)]
+
+
+# --------------------------------------------------------------------------
+# keys: an object member is named by its chain of (record, field) steps inside the object
+# --------------------------------------------------------------------------
+
+def chain_of(x):
+    """Key of an access path (or of the address of one): the member steps from the last `->` to the end,
+    `pool->seq.tail` -> ((work_pool_priv, seq), (<anon>, tail)).  Independent of how the object is reached and of the
+    nesting of sub-structures being spelled differently elsewhere (the role inference derives the key from the code)."""
+    x = strip(x)
+    if isinstance(x, dict) and x.get('k') == 'addr':
+        x = strip(x['e'])
+    if not (isinstance(x, dict) and x.get('k') == 'member'):
+        return None
+    _, ch = field_chain(x)
+    return tuple(ch)
+
+
+def arg_chain(e, i):
+    """key of `&X->a.b` passed as argument i of a call event (None for anything that is not the address of a member)"""
+    a = strip(e['args'][i]) if len(e.get('args', [])) > i else None
+    if isinstance(a, dict) and a.get('k') == 'addr':
+        return chain_of(a)
+    return None
+
+
+def step_of(e, key):
+    """+1 / -1 when the store event steps the field `key` by one (x++, --x, x += 1, x -= 1, x = x + 1, x = x - 1, x = 1 + x)"""
+    if key is None or e['ev'] != 'store' or chain_of(e['lhs']) != key:
+        return None
+    return step_sign(e)
+
+
+def step_sign(e):
+    op = e.get('op')
+    if op == '++':
+        return 1
+    if op == '--':
+        return -1
+    if op in ('+=', '-=') and is_int(e.get('rhs')):
+        v = strip(e['rhs'])['v']
+        if abs(v) == 1:
+            return v if op == '+=' else -v
+        return None
+    if op == '=' and 'rhs' in e:
+        r = strip(e['rhs'])
+        if isinstance(r, dict) and r.get('k') == 'bin' and r['op'] in ('+', '-'):
+            me = canon(e['lhs'])
+            if is_int(r['r']) and abs(strip(r['r'])['v']) == 1 and canon(r['l']) == me:
+                v = strip(r['r'])['v']
+                return v if r['op'] == '+' else -v
+            if r['op'] == '+' and is_int(r['l'], 1) and canon(r['r']) == me:
+                return 1
+    return None
+
+
+def mark_effect(e, key):
+    """'set' / 'clear' when the store event sets / clears the mark `key`: `m = <nonzero>` / `m = 0`, or a bit of a flags word
+    `m |= BIT` / `m &= ~BIT`; None for other events."""
+    if key is None or e['ev'] != 'store' or chain_of(e['lhs']) != key or 'rhs' not in e:
+        return None
+    return mark_op(e)
+
+
+def mark_op(e):
+    r = strip(fold(e['rhs'])) if 'rhs' in e else None
+    if not (isinstance(r, dict) and r.get('k') == 'int'):
+        return None
+    if e.get('op') == '=':
+        return 'set' if r['v'] != 0 else 'clear'
+    if e.get('op') == '|=' and r['v'] != 0:
+        return 'set'
+    if e.get('op') == '&=' and r['v'] != -1 and (r['v'] & 0xffffffff) != 0xffffffff:
+        return 'clear'
+    return None
+
+
+def writes_key(e, key):
+    """the store event writes (part of) the member `key`"""
+    if key is None or e['ev'] != 'store':
+        return False
+    c = chain_of(e['lhs'])
+    if not c:
+        return False
+    n = min(len(c), len(key))
+    return c[:n] == key[:n]
+
+
+def empty_test(atom, key):
+    """'empty' / 'nonempty' when the atom is a truth test of iv_list_empty(&X) for the list head `key`"""
+    (op, lc, rc, l, r) = atom
+    c = strip(l)
+    if key is None or not (isinstance(c, dict) and c.get('k') == 'call' and c.get('callee') == 'iv_list_empty' and rc == '0'):
+        return None
+    if chain_of(c['args'][0]) != key or strip(c['args'][0]).get('k') != 'addr':
+        return None
+    return 'empty' if op == '!=' else 'nonempty'
+
+
+def compare_keys(atom, lkey, rkeys):
+    """For an atom comparing the field `lkey` with one of the fields `rkeys` (either operand order, also as
+    `(a - b) OP 0`): the operator normalised to `lkey OP rkey`, else None."""
+    from ..core import SWAP
+    (op, lc, rc, l, r) = atom
+    if op == 'const' or lkey is None or not isinstance(r, dict):
+        return None
+    d = strip(l)
+    if rc == '0' and isinstance(d, dict) and d.get('k') == 'bin' and d['op'] == '-':
+        l, r = d['l'], d['r']
+    ll, rr = chain_of(l), chain_of(r)
+    if ll == lkey and rr in rkeys:
+        return op
+    if rr == lkey and ll in rkeys:
+        return SWAP[op]
+    return None
+
+
+def compare_zero(atom, key):
+    """operator of `key OP 0` (also `key OP 1` normalised: x >= 1 is x > 0, x < 1 is x <= 0), else None"""
+    (op, lc, rc, l, r) = atom
+    if op == 'const' or key is None or chain_of(l) != key:
+        return None
+    if rc == '0':
+        return op
+    if rc == '1':
+        return {'>=': '>', '<': '<='}.get(op)
+    return None
+
+
+def is_unsigned(x):
+    """the C type of the (member) expression is an unsigned integer type"""
+    t = str((strip(x) or {}).get('type', '')) if isinstance(strip(x), dict) else ''
+    return 'unsigned' in t or t.startswith(('uint', 'size_t', '__u'))
+
+
+def key_relation(atom, a, b):
+    """'eq' / 'ne' when the atom states equality / inequality of the fields a and b (a == b, a != b, (a - b) == 0, !(a - b))"""
+    (op, lc, rc, l, r) = atom
+    if op not in ('==', '!=') or a is None or b is None:
+        return None
+    if isinstance(r, dict) and {chain_of(l), chain_of(r)} == {a, b}:
+        return 'eq' if op == '==' else 'ne'
+    if rc == '0':
+        d = strip(l)
+        if isinstance(d, dict) and d.get('k') == 'bin' and d['op'] == '-' and {chain_of(d['l']), chain_of(d['r'])} == {a, b}:
+            return 'eq' if op == '==' else 'ne'
+    return None
+
+
+def seq_order(atom, head, tail):
+    """'eq' / 'ne' when the atom decides whether the two sequence numbers are equal, given head never runs ahead of tail:
+    head == tail, head != tail, (tail - head) == 0 / != 0 / > 0 / <= 0 (signed difference), head >= tail, head < tail, and the
+    same with the operands swapped."""
+    from ..core import SWAP
+    r = key_relation(atom, head, tail)
+    if r is not None or head is None or tail is None:
+        return r
+    (op, lc, rc, l, rr) = atom
+    if op == 'const':
+        return None
+    d = strip(l)
+    if rc == '0' and isinstance(d, dict) and d.get('k') == 'bin' and d['op'] == '-':
+        a, b = chain_of(d['l']), chain_of(d['r'])
+    elif isinstance(rr, dict):
+        a, b = chain_of(l), chain_of(rr)
+    else:
+        return None
+    if (a, b) == (head, tail):
+        op = SWAP[op]
+    elif (a, b) != (tail, head):
+        return None
+    # now: tail OP head
+    return {'>': 'ne', '<=': 'eq'}.get(op)
+
+
+def all_atoms(g):
+    for blk in g.blocks.values():
+        for si in range(len(blk.succ)):
+            for at in atoms_on(blk, si):
+                yield at
+
+
+# --------------------------------------------------------------------------
+# role inference: which record / field plays which part
+# --------------------------------------------------------------------------
+
+ITEM_LINK = (('iv_work_item', 'list'),)                   # installed header
+PUBLIC_MAX = (('iv_work_pool', 'max_threads'),)           # installed header
+PUBLIC_PRIV = ('iv_work_pool', 'priv')                    # installed header
+HANDLER_RECORDS = ('iv_event', 'iv_task', 'iv_task_', 'iv_timer', 'iv_timer_', 'iv_event_raw')
+
+
+class Schema:
+    """The private data layout of the iv_work code, found by what the code does with it (nothing here is a name of a
+    private struct, field, global or static function):
+
+      priv       the record iv_work_pool.priv points to
+      thread     the record of the cookie handed to iv_thread_create
+      lock       the lock inside a priv object that the module takes
+      work_items the priv list an exported function links the caller's item into;  localq: the same for the non-pool list
+      work_done  the priv list the worker links items into / the owner detaches
+      idle       the priv list thread records are linked into;  thr_link: their link member
+      ev / kick / needed / task: the event (task) whose installed handler is the owner / worker / thread-request / local root
+      kicked     the integer member of thread that submit sets and the worker clears
+      counter    the priv integer that counts threads (stepped where a thread is created and where one ends)
+      seq_tail / seq_head: the priv integers stepped by the submit functions / by the worker
+      maxkeys    iv_work_pool.max_threads and its write-once copies
+    A role that cannot be found is None (the obligations that need it fail or their section is ANALYSIS-BROKEN); an
+    ambiguous role is ANALYSIS-BROKEN."""
+
+    def describe(self):
+        def k(c):
+            return '.'.join(f for _, f in c) if c else 'None'
+        return ('priv=%s thread=%s lock=%s work_items=%s work_done=%s idle=%s localq=%s thr_link=%s ev=%s kick=%s needed=%s task=%s '
+                'kicked=%s counter=%s(%s) seq_head=%s seq_tail=%s max=%s'
+                % (self.priv, self.thread, self.lock, k(self.work_items), k(self.work_done), k(self.idle), k(self.localq), k(self.thr_link),
+                   k(self.ev), k(self.kick), k(self.needed), k(self.task), k(self.kicked), k(self.counter), self.direction,
+                   k(self.seq_head), k(self.seq_tail), sorted(k(m) for m in self.maxkeys)))
+
+
+def _one(cands, what, need=False):
+    cands = {c for c in cands if c}
+    if len(cands) == 1:
+        return next(iter(cands))
+    if not cands:
+        if need:
+            raise AnalysisBroken('role inference: %s not found' % what)
+        return None
+    raise AnalysisBroken('role inference: %s is ambiguous: %s' % (what, sorted(map(str, cands))[:4]))
+
+
+def work_site(e):
+    return callback_kind(e) == ('callback', 'work')
+
+
+def completion_site(e):
+    return callback_kind(e) == ('callback', 'completion')
+
+
+def schema(prog):
+    cache = prog.__dict__.get('_h12_schema')
+    if cache is None:
+        try:
+            cache = _infer(prog)
+        except AnalysisBroken as x:
+            cache = x
+        prog.__dict__['_h12_schema'] = cache
+    if isinstance(cache, Exception):
+        raise AnalysisBroken(str(cache))
+    return cache
+
+
+def _infer(prog):
+    S = Schema()
+    roots = module_roots(prog)
+    ctxs = [(r, context_of(prog, r)) for r in roots]
+    if not ctxs:
+        raise AnalysisBroken('role inference: no code uses the iv_work records')
+    # ---- records ------------------------------------------------------------------------------------------------
+    priv = {}
+    for r, g in ctxs:
+        for e in g.events():
+            if e['ev'] == 'store' and e.get('op') == '=' and 'rhs' in e:
+                l, rh = strip(e['lhs']), strip(e['rhs'])
+                if isinstance(rh, dict) and last_member(rh) == PUBLIC_PRIV and isinstance(l, dict) and l.get('k') == 'var' and l.get('record'):
+                    priv[l['record']] = priv.get(l['record'], 0) + 1
+                if last_member(l) == PUBLIC_PRIV and isinstance(rh, dict) and rh.get('k') == 'var' and rh.get('record'):
+                    priv[rh['record']] = priv.get(rh['record'], 0) + 1
+            for x in walk(e):
+                if x.get('k') == 'member' and x.get('arrow') and last_member(x.get('base')) == PUBLIC_PRIV and x.get('record'):
+                    priv[x['record']] = priv.get(x['record'], 0) + 1
+    S.priv = _one(set(priv), 'the record iv_work_pool.priv points to', need=True)
+    thread = set()
+    for r, g in ctxs:
+        for e in g.events():
+            if is_call(e, 'iv_thread_create') and e['ev'] == 'call' and len(e.get('args', [])) > 2:
+                a = strip(e['args'][2])
+                if isinstance(a, dict) and a.get('k') == 'var' and a.get('record'):
+                    thread.add(a['record'])
+    S.thread = _one(thread, 'the record of the thread cookie')
+
+    def rooted(c, rec):
+        return bool(c) and rec is not None and c[0][0] == rec
+
+    # ---- roles of the roots ------------------------------------------------------------------------------------
+    def has(g, pred):
+        return any(pred(e) for e in g.events())
+    pooled = {r.q: touches(g, S.priv) for r, g in ctxs}
+    workers = [(r, g) for r, g in ctxs if pooled[r.q] and has(g, work_site)]
+    owners = [(r, g) for r, g in ctxs if pooled[r.q] and has(g, completion_site) and not has(g, work_site)]
+    locals_ = [(r, g) for r, g in ctxs if not pooled[r.q] and has(g, work_site)]
+    creators = [(r, g) for r, g in ctxs if pooled[r.q] and has(g, lambda e: e['ev'] == 'call' and is_call(e, 'iv_thread_create'))]
+    submitters = [(r, g) for r, g in ctxs if not r.static and has(g, lambda e: is_call(e, ADD) and arg_chain(e, 0) == ITEM_LINK)]
+    S.roles = {'worker': [r.q for r, _ in workers], 'owner': [r.q for r, _ in owners], 'local': [r.q for r, _ in locals_],
+               'creator': [r.q for r, _ in creators], 'submit': [r.q for r, _ in submitters]}
+    # ---- the lock -----------------------------------------------------------------------------------------------
+    locks = set()
+    for r, g in ctxs:
+        for e in g.events():
+            if e['ev'] == 'call' and e.get('callee') in LOCK_FUNCS and e.get('args'):
+                if rooted(chain_of(e['args'][0]), S.priv):
+                    for (op, lid) in lock_effect(e):
+                        locks.add(lid)
+    S.lock = _one(locks, 'the lock of a pool')
+    # ---- lists --------------------------------------------------------------------------------------------------
+    wi, lq, wd, idle, tl = set(), set(), set(), set(), set()
+    for r, g in submitters:
+        for e in g.events():
+            if is_call(e, ADD) and arg_chain(e, 0) == ITEM_LINK:
+                c = arg_chain(e, 1)
+                (wi if rooted(c, S.priv) else lq).add(c)
+    S.work_items = _one(wi, 'the queue of a pool')
+    S.localq = _one(lq, 'the queue of the NULL pool')
+    for r, g in workers:
+        for e in g.events():
+            if is_call(e, ADD):
+                c = arg_chain(e, 1)
+                if rooted(c, S.priv) and c != S.work_items and not rooted(arg_chain(e, 0), S.thread):
+                    wd.add(c)
+    for r, g in owners:
+        for e in g.events():
+            if is_call(e, DETACH):
+                c = arg_chain(e, 0)
+                if rooted(c, S.priv):
+                    wd.add(c)
+    S.work_done = _one(wd, 'the done queue of a pool')
+    for r, g in ctxs:
+        for e in g.events():
+            if is_call(e, ADD) and rooted(arg_chain(e, 0), S.thread) and rooted(arg_chain(e, 1), S.priv):
+                idle.add(arg_chain(e, 1))
+                tl.add(arg_chain(e, 0))
+    S.idle = _one(idle, 'the idle list of a pool')
+    S.thr_link = _one(tl, 'the link member of a thread record')
+    # ---- events and tasks, by the role of the installed handler -------------------------------------------------
+    by_q = {r.q: r for r, _ in ctxs}
+    role_of = {}
+    for nm, lst in (('kick', workers), ('ev', owners), ('task', locals_)):
+        for r, _ in lst:
+            role_of[r.q] = nm
+    for r, _ in creators:
+        if r.static and r.q not in role_of:
+            role_of[r.q] = 'needed'
+    inst = {'kick': set(), 'ev': set(), 'task': set(), 'needed': set()}
+    seen_fn = set()
+    scan = [g for _, g in ctxs] + [f for f in prog.all_funcs() if f.file in module_files(prog)]
+    for g in scan:
+        for e in g.events():
+            if e['ev'] == 'store' and e.get('op') == '=' and 'rhs' in e:
+                rh = strip(e['rhs'])
+                if isinstance(rh, dict) and rh.get('k') == 'var' and rh.get('vk') == 'func':
+                    c = chain_of(e['lhs'])
+                    if c and len(c) >= 2 and c[-1][1] == 'handler' and c[-1][0] in HANDLER_RECORDS:
+                        f = e.get('fn')
+                        unit = (f.split(':')[0] if f and ':' in f else None)
+                        t = None
+                        for u in ([unit] if unit else []) + [prog.unit_of(x) for x in roots[:1]]:
+                            t = prog.resolve(u, rh['name']) if u else None
+                            if t is not None:
+                                break
+                        if t is not None and role_of.get(t.q):
+                            inst[role_of[t.q]].add(c[:-1])
+    S.kick = _one(inst['kick'], 'the event whose handler is the worker')
+    S.ev = _one(inst['ev'], 'the event whose handler runs the completions')
+    S.task = _one(inst['task'], 'the task whose handler runs the NULL-pool items')
+    S.needed = _one(inst['needed'], 'the event whose handler starts a thread')
+    # ---- the kicked mark -----------------------------------------------------------------------------------------
+    kw = {}
+    for lst, want in ((submitters, 'set'), (workers, 'clear')):
+        for r, g in lst:
+            for e in g.events():
+                if e['ev'] == 'store' and 'rhs' in e and mark_op(e) == want:
+                    c = chain_of(e['lhs'])
+                    if rooted(c, S.thread):
+                        kw[c] = kw.get(c, 0) + 1
+    if len(kw) > 1:
+        # the mark is the one that some handler tests
+        tested = set()
+        for r, g in ctxs:
+            for at in all_atoms(g):
+                if at[0] != 'const' and at[2] == '0':
+                    for x in walk(at[3]):
+                        if x.get('k') == 'member' and chain_of(x) in kw:
+                            tested.add(chain_of(x))
+        kw = {c: n for c, n in kw.items() if c in tested} or kw
+    S.kicked = _one(set(kw), 'the kicked mark of a thread record')
+    # ---- maximum and counters ------------------------------------------------------------------------------------
+    S.maxkeys = {PUBLIC_MAX}
+    grown = True
+    while grown:
+        grown = False
+        for g in scan:
+            for e in g.events():
+                if e['ev'] == 'store' and e.get('op') == '=' and 'rhs' in e:
+                    c = chain_of(e['lhs'])
+                    if c and c not in S.maxkeys and chain_of(e['rhs']) in S.maxkeys and strip(e['rhs']).get('k') == 'member' \
+                            and immutable_key(prog, c[-1]):
+                        S.maxkeys.add(c)
+                        grown = True
+    steps = {}
+    for r, g in ctxs:
+        for e in g.events():
+            if e['ev'] == 'store':
+                c = chain_of(e['lhs'])
+                if rooted(c, S.priv):
+                    sg = step_sign(e)
+                    if sg:
+                        steps.setdefault(c, set()).add((r.q, sg))
+    submit_q = {r.q for r, _ in submitters}
+    worker_q = {r.q for r, _ in workers}
+    creator_q = {r.q for r, _ in creators}
+    cw = {}
+    for c, st in steps.items():
+        n = 0
+        if any(q in creator_q and q not in submit_q for q, _ in st):
+            n += 1                                          # stepped by the handler that starts a requested thread
+        if {sg for _, sg in st} == {1, -1}:
+            n += 1                                          # counts both ways: threads come and go
+        cw[c] = n
+    for r, g in ctxs:
+        for at in all_atoms(g):
+            for c in steps:
+                if compare_keys(at, c, S.maxkeys) is not None:
+                    cw[c] = cw.get(c, 0) + 1                # compared with the maximum
+                    break
+    best = max(cw.values()) if cw else 0
+    S.counter = _one({c for c, n in cw.items() if n == best and n > 0}, 'the thread counter of a pool')
+    # direction: what a thread that ends does to the counter is the opposite of what a started thread does
+    ends = {sg for q, sg in steps.get(S.counter, ()) if q not in creator_q}
+    S.direction = 'down' if ends == {1} else 'up'
+    seq = {c: st for c, st in steps.items() if c != S.counter}
+    tails = {c for c, st in seq.items() if any(q in submit_q and sg == 1 for q, sg in st)}
+    heads = {c for c, st in seq.items() if any(q in worker_q and sg == 1 for q, sg in st)} - tails
+    pairs = set()
+    for r, g in ctxs:
+        for at in all_atoms(g):
+            (op, lc, rc, l, rr) = at
+            if op in ('==', '!=', '<', '>', '<=', '>='):
+                d = strip(l)
+                if rc == '0' and isinstance(d, dict) and d.get('k') == 'bin' and d['op'] == '-':
+                    a, b = chain_of(d['l']), chain_of(d['r'])
+                elif isinstance(rr, dict):
+                    a, b = chain_of(l), chain_of(rr)
+                else:
+                    continue
+                if rooted(a, S.priv) and rooted(b, S.priv) and a != b and S.counter not in (a, b) and not ({a, b} & S.maxkeys):
+                    pairs.add(frozenset((a, b)))
+    for pr in pairs:
+        if not tails and len(heads) == 1 and heads & pr:
+            tails = set(pr - heads)
+        if not heads and len(tails) == 1 and tails & pr:
+            heads = set(pr - tails)
+    S.seq_tail = _one(tails, 'the sequence number stepped by submit')
+    S.seq_head = _one(heads, 'the sequence number stepped by the worker')
+    return S
